@@ -335,6 +335,10 @@ func (c *Catalog) AddResponseBody(
 		return d.KeywordError(fmt.Sprintf("%s for %q", jerr.ResponsesIsEmpty, httpID.String()))
 	}
 
+	if v.Responses[i].Body != nil {
+		return d.KeywordError(jerr.NotUniqueDirective)
+	}
+
 	httpResponseBody, je := NewHTTPResponseBody(schemaBytes, bodyFormat, sn, d, tt, rr)
 	if je != nil {
 		return je
